@@ -75,6 +75,19 @@ class Mini:
                 raise Ret(self.ev(st.value, env))
             elif isinstance(st, (ast.Import, ast.ImportFrom)):
                 continue
+            elif isinstance(st, ast.Try) and not st.finalbody:
+                try:
+                    self.block(st.body, env)
+                except Raised as r:
+                    for h in st.handlers:
+                        names = [] if h.type is None else [ast.unparse(x).split(".")[-1] for x in (h.type.elts if isinstance(h.type, ast.Tuple) else [h.type])]
+                        if h.type is None or r.exc.split(".")[-1] in names or "Exception" in names or (r.exc.endswith("IndexError") and "LookupError" in names):
+                            self.block(h.body, env)
+                            break
+                    else:
+                        raise
+                else:
+                    self.block(st.orelse, env)
             else:
                 raise AnalysisError("table accessor: unsupported statement %s" % type(st).__name__)
 
